@@ -99,7 +99,7 @@ func Layer(r *ev.Run) {
 	defer proxyrig.SetDialect(false)
 	t0 := time.Now()
 	defer func() { r.Extra("mysql_layer_wall_s", time.Since(t0).Seconds()) }()
-	r.Rule += " || MySQL part: the same table generator with MySQL type ids (STRING 254, BLOB 252, LONG 3, LONGLONG 8) for data_type_db_identifier; the owner writes boundary values through a MySQL-mode AcraServer with the stock go-sql-driver client (differential against a reference fake MySQL holding the declared types: type class, text and binary-protocol values, NULL/empty); readers that cannot reveal (other keys, no keys, owner reading a damaged value) select every typed column alone with COM_QUERY (text rows) and COM_STMT_PREPARE/EXECUTE (binary rows) and must get exactly what the policy says; the wire type id of the column definition is read from the client-side byte stream with the harness codec"
+	r.Rule += " || MySQL part: the same table generator with MySQL type ids (STRING 254, BLOB 252, LONG 3, LONGLONG 8) for data_type_db_identifier; the owner writes boundary values through a MySQL-mode AcraServer with the stock go-sql-driver client (differential against a reference fake MySQL holding the declared types: type class, text and binary-protocol values, NULL/empty); readers that cannot reveal (other keys, no keys, owner reading a damaged value) select every typed column alone with COM_QUERY (text rows) and COM_STMT_PREPARE/EXECUTE (binary rows) and must get exactly what the policy says; the wire type id of the column definition is read from the client-side byte stream with the harness codec; mixed-outcome reads: the database damages only some columns of some rows and the owner selects all typed columns (and all without the error-policy ones) in one statement, table order and shuffled, text and binary protocol - every field judged by the same rules, classed by what stands to its left in the row (revealed / unrevealable / nothing)"
 	r.Assumptions = append(r.Assumptions, "MySQL part: fake MySQL behind AcraServer; policy 'ciphertext': the delivered field must carry the stored bytes; how such a column is described is not judged")
 	rng := gen.New(r.Seed, "c19-mysql")
 	n := r.Pick(20, 400)
@@ -120,6 +120,8 @@ func Layer(r *ev.Run) {
 	r.RequireAtLeast("mysql_owner_replies_equal_reference", 80)
 	r.RequireAtLeast("mysql_policy_fields_checked", 200)
 	r.RequireSetAtLeast("mysql_policies_observed", 3)
+	r.RequireAtLeast("mysql_mixed_fields_checked", 60)
+	r.RequireAtLeast("mysql_mixed_unrevealable_after_revealed_checked", 15)
 }
 
 func session(r *ev.Run, rng *gen.Rand, sidx int) {
@@ -163,6 +165,7 @@ func session(r *ev.Run, rng *gen.Rand, sidx int) {
 			return
 		}
 	}
+	allDamaged := map[int]map[int]bool{}
 	for ci, col := range t.Cols {
 		if !col.Configured() || rng.Intn(2) == 0 {
 			continue
@@ -179,10 +182,16 @@ func session(r *ev.Run, rng *gen.Rand, sidx int) {
 			return nb
 		})
 		if len(damaged) > 0 {
-			checkReader(r, w, ac, t, "owner-damaged", map[int]map[int]bool{ci: damaged}, history, sidx)
+			allDamaged[ci] = damaged
+			if !checkReader(r, w, ac, t, "owner-damaged", map[int]map[int]bool{ci: damaged}, history, sidx) {
+				return
+			}
 		}
 		break
 	}
+	// mixed-outcome rows: only some columns of some rows are damaged; several typed columns in one statement
+	damageSome(w, t, rng, allDamaged)
+	mixedReads(r, w, ac, t, allDamaged, rng, history, sidx)
 }
 
 func plainOf(v fakepg.Value) []byte {
